@@ -351,3 +351,97 @@ Proof.
     rewrite A. reflexivity. }
   split; [exact E|]. rewrite E. apply rotate_norm. exact H.
 Qed.
+
+(* ---------------- init_orbit, init_to_new_axes, slerp end points *)
+Lemma normalize_unit_id : forall v : vecR, Rlsq v = 1 -> v_normalize RNum v = v.
+Proof.
+  intros [a b c] H. unfold v_normalize. rewrite H. change (nsqrt RNum 1) with (sqrt 1). rewrite sqrt_1.
+  apply vec_eq; unf; field.
+Qed.
+Definition ez : vecR := mkV 0 0 1.
+Definition ex : vecR := mkV 1 0 0.
+Lemma lsq_ez : Rlsq ez = 1. Proof. unfold ez. unf. ring. Qed.
+Lemma lsq_ex : Rlsq ex = 1. Proof. unfold ex. unf. ring. Qed.
+Lemma angle_axis_z : forall c s, angle_axis RNum c s ez = mkQ 0 0 s c.
+Proof. intros. unfold angle_axis. rewrite (normalize_unit_id ez lsq_ez). apply quat_eq; unfold ez; unf; ring. Qed.
+Lemma angle_axis_x : forall c s, angle_axis RNum c s ex = mkQ s 0 0 c.
+Proof. intros. unfold angle_axis. rewrite (normalize_unit_id ex lsq_ex). apply quat_eq; unfold ex; unf; ring. Qed.
+
+(* rotation matrices about z and x by an angle with cosine ct and sine st *)
+Definition Rz (ct st : R) (v : vecR) : vecR := mkV (ct * vx v - st * vy v) (st * vx v + ct * vy v) (vz v).
+Definition Rx (ct st : R) (v : vecR) : vecR := mkV (vx v) (ct * vy v - st * vz v) (st * vy v + ct * vz v).
+Lemma rot_about_z : forall c s v, c * c + s * s = 1 -> Rqlsq (mkQ 0 0 s c) = 1 /\ Rrot v (mkQ 0 0 s c) = Rz (c * c - s * s) (2 * s * c) v.
+Proof. intros c s [x y z] H. split; [unf; lra | apply vec_eq; unfold Rz; unf; nsatz]. Qed.
+Lemma rot_about_x : forall c s v, c * c + s * s = 1 -> Rqlsq (mkQ s 0 0 c) = 1 /\ Rrot v (mkQ s 0 0 c) = Rx (c * c - s * s) (2 * s * c) v.
+Proof. intros c s [x y z] H. split; [unf; lra | apply vec_eq; unfold Rx; unf; nsatz]. Qed.
+
+(* reb_rotation_init_orbit = Rz(Omega) Rx(inc) Rz(omega) (Murray & Dermott 2.121), a unit quaternion, for half-angle values
+   (c,s) with c^2+s^2=1; cos(angle) = c^2-s^2, sin(angle) = 2 s c *)
+Theorem init_orbit_spec : forall c_o s_o c_i s_i c_O s_O,
+  c_o * c_o + s_o * s_o = 1 -> c_i * c_i + s_i * s_i = 1 -> c_O * c_O + s_O * s_O = 1 ->
+  let q := init_orbit RNum c_o s_o c_i s_i c_O s_O in
+  Rqlsq q = 1 /\
+  forall v, Rrot v q = Rz (c_O * c_O - s_O * s_O) (2 * s_O * c_O) (Rx (c_i * c_i - s_i * s_i) (2 * s_i * c_i) (Rz (c_o * c_o - s_o * s_o) (2 * s_o * c_o) v)).
+Proof.
+  intros c_o s_o c_i s_i c_O s_O Ho Hi HO q. subst q. unfold init_orbit.
+  change (mkV (none RNum) (nzero RNum) (nzero RNum)) with ex. change (mkV (nzero RNum) (nzero RNum) (none RNum)) with ez.
+  rewrite !angle_axis_z, angle_axis_x.
+  destruct (rot_about_z c_o s_o (mkV 0 0 0) Ho) as [U1 _]. destruct (rot_about_x c_i s_i (mkV 0 0 0) Hi) as [U2 _].
+  destruct (rot_about_z c_O s_O (mkV 0 0 0) HO) as [U3 _].
+  assert (U21 : Rqlsq (Rmul (mkQ s_i 0 0 c_i) (mkQ 0 0 s_o c_o)) = 1) by (rewrite lsq_mul, U1, U2; ring).
+  split; [rewrite lsq_mul, U21, U3; ring|]. intro v.
+  rewrite rotate_mul by assumption. rewrite rotate_mul by assumption.
+  rewrite (proj2 (rot_about_z c_o s_o v Ho)). rewrite (proj2 (rot_about_x c_i s_i _ Hi)). rewrite (proj2 (rot_about_z c_O s_O _ HO)). reflexivity.
+Qed.
+
+Lemma atan2_turn : forall c s rho a b, c * c + s * s = 1 -> (c * c - s * s) * rho = a -> 2 * s * c * rho = - b ->
+  (c * c - s * s) * a - 2 * s * c * b = rho /\ 2 * s * c * a + (c * c - s * s) * b = 0.
+Proof. intros c s rho a b H1 H2 H3. split; nsatz. Qed.
+
+(* reb_rotation_init_to_new_axes (as fixed in 9280039).  x' = the orthogonalised newx after the first stage (the argument of atan2);
+   (c2,s2) = cos/sin of half of -atan2(x'.y, x'.x), i.e. cos(angle) * rho = x'.x and sin(angle) * rho = -x'.y with rho > 0. *)
+Theorem to_new_axes_spec : forall thr (newz newx : vecR) c2 s2 rho, 0 <= thr -> 0 < Rlsq newz ->
+  let f := v_normalize RNum newz in
+  let xo := v_add RNum newx (v_mul RNum f (- Rdot f newx)) in
+  let x' := fst (to_new_axes_x' RNum isnormR thr newz newx) in
+  (0 <= Rdot f ez \/ thr < Rlsq (v_add RNum f ez)) ->
+  c2 * c2 + s2 * s2 = 1 -> 0 < rho -> (c2 * c2 - s2 * s2) * rho = vx x' -> (2 * s2 * c2) * rho = - vy x' ->
+  let q := to_new_axes RNum isnormR thr c2 s2 newz newx in
+  Rqlsq q = 1 /\ Rrot f q = ez /\ Rrot xo q = mkV rho 0 0 /\ Rdot f xo = 0.
+Proof.
+  intros thr newz newx c2 s2 rho Hthr Hz f xo x' Hgen Hcs Hrho Hc Hs q.
+  pose proof (normalize_unit newz Hz) as Hf. fold f in Hf.
+  assert (Hf0 : 0 < Rlsq f) by lra. assert (He0 : 0 < Rlsq ez) by (rewrite lsq_ez; lra).
+  pose proof (from_to_spec thr f ez Hthr Hf0 He0) as S. cbv zeta in S.
+  rewrite (normalize_unit_id f Hf), (normalize_unit_id ez lsq_ez) in S. destruct S as (U1 & M1 & _). specialize (M1 Hgen).
+  set (q1 := from_to RNum isnormR thr f ez) in *.
+  assert (Eq1 : snd (to_new_axes_x' RNum isnormR thr newz newx) = q1) by reflexivity.
+  assert (Ex' : x' = Rrot xo q1) by reflexivity.
+  assert (Orth : Rdot f xo = 0).
+  { subst xo. clear - Hf. destruct f as [f1 f2 f3]. destruct newx as [n1 n2 n3]. revert Hf. unf. intro Hf. nsatz. }
+  assert (Z' : vz x' = 0).
+  { assert (D : Rdot x' ez = Rdot xo f) by (rewrite Ex', <- M1; apply rotate_dot; exact U1).
+    replace (Rdot xo f) with (Rdot f xo) in D by (unf; ring). rewrite Orth in D. revert D. unfold ez. unf. intro D. lra. }
+  destruct (rot_about_z c2 s2 (mkV 0 0 0) Hcs) as [U2 _].
+  subst q. unfold to_new_axes. rewrite Eq1. change (mkV (nzero RNum) (nzero RNum) (none RNum)) with ez. rewrite angle_axis_z.
+  split; [rewrite lsq_mul, U1, U2; ring|].
+  split; [|split; [|exact Orth]].
+  - rewrite rotate_mul by assumption. rewrite M1. rewrite (proj2 (rot_about_z c2 s2 ez Hcs)). unfold Rz, ez. apply vec_eq; unf; ring.
+  - rewrite rotate_mul by assumption. rewrite <- Ex'. rewrite (proj2 (rot_about_z c2 s2 x' Hcs)).
+    destruct x' as [a b c]. cbn [vx vy vz] in *. subst c. unfold Rz. cbn [vx vy vz].
+    destruct (atan2_turn c2 s2 rho a b Hcs Hc Hs) as [T1 T2]. apply vec_eq; cbn [vx vy vz]; [exact T1 | exact T2 | reflexivity].
+Qed.
+
+(* slerp returns its end points: t = 0 (sA = sin(halfTheta) = sqrt(1-c^2), sB = sin 0 = 0) and t = 1 *)
+Theorem slerp_endpoints : forall eps (q1 q2 : quatR), 0 < eps ->
+  let c := slerp_cos RNum q1 q2 in let s := sqrt (1 - c * c) in
+  Rabs c < 1 -> eps <= Rabs s ->
+  slerp RNum eps s 0 q1 q2 = q1 /\ slerp RNum eps 0 s q1 q2 = q2.
+Proof.
+  intros eps q1 q2 He c s Hc Hs.
+  assert (Hs0 : s <> 0) by (intro Z; rewrite Z, Rabs_R0 in Hs; lra).
+  unfold slerp. fold c. cbn [nleb nltb nabs nsqrt nsub nmul none RNum]. fold s.
+  unfold Rleb. destruct (Rle_dec 1 (Rabs c)); [lra|].
+  unfold Rltb. destruct (Rlt_dec (Rabs s) eps); [lra|].
+  destruct q1 as [a1 b1 c1 d1]. destruct q2 as [a2 b2 c2' d2]. split; apply quat_eq; unf; field; exact Hs0.
+Qed.
